@@ -91,6 +91,28 @@ def gen(ctx, rng):
             x = np.where(rng.random(L) < gapf, nd, x)
             rows.append([int(v) for v in x])
         rolling.append(dict(xx=rows, ws=ws, nd=nd, dtype=dtype, exhaustive=False))
+    # float32 series with a large dynamic range: a cell of 2**24..2**26 among cells of order 1 enters and leaves the window; every window
+    # is the sum of ITS cells (a running total that adds the entering and subtracts the leaving cell keeps what the big cell absorbed).
+    # Kept only when adding the window's cells one after the other in binary32 gives the once-rounded exact sum (no claim beyond that).
+    def seq32_ok(x, ws):
+        for i in range(ws - 1, len(x)):
+            acc = np.float32(0)
+            for v in x[i - ws + 1:i + 1]:
+                acc = np.float32(acc + np.float32(v))
+            if float(acc) != f32(sum(x[i - ws + 1:i + 1])):
+                return False
+        return True
+    for k in range(40 if ctx.thorough else 16):
+        L = int(rng.integers(6, 30))
+        ws = int(rng.integers(2, 5))
+        x = [int(v) for v in rng.integers(0, 6, size=L)]
+        for _b in range(int(rng.integers(1, 3))):
+            x[int(rng.integers(0, L - ws))] = int(rng.choice([2 ** 24, 2 ** 25, 2 ** 26, -2 ** 25, 2 ** 24 + 2]))
+        if k % 4 == 0:
+            x = [2 ** 25, 1, 1, 1, 1, 1][:max(L, 6)] + x[6:]
+            ws = 2
+        if seq32_ok(x, ws):
+            rolling.append(dict(xx=[x], ws=ws, nd=ND, dtype="float32", exhaustive=False))
     # nodata-independence pairs: same cells, two encodings (second batch follows the first)
     pairs = []
     for _ in range(60 if ctx.thorough else 20):
